@@ -541,17 +541,27 @@ def interrupted_creation_is_recoverable(ctx, rid):
     creates = sorted({bb for (bb, _, txt, _) in str_consts(I) if re.match(r"\s*(create\s+table|insert\s+into\s+schema)\b", txt, re.I)})
     if not ctx.floor(rid, "schema-creating statements in init", len(creates), 1):
         return
-    # the switch that separates the creating side from the checking side
+    # the switch that separates the creating side from the checking side (a bool test, or a match on a two-way enum)
     guards = []
+    rets = ba.returns()
     for sw in sorted(ba.live):
-        bs = ba.bool_switch(sw)
-        if not bs:
+        t = I.blocks[sw]["term"]
+        if t["t"] != "switch":
             continue
-        t_t, f_t = bs[0], bs[1]
-        rets = ba.returns()
-        if any(ba.path([x], rets, incl=True) is None for x in (t_t, f_t)):
-            continue        # an assertion (one side only panics) is not a decision
-        for side in (t_t, f_t):
+        bs = ba.bool_switch(sw)
+        if bs:
+            sides = [bs[0], bs[1]]
+        else:
+            es = ba.enum_switch(sw)
+            if not es:
+                continue
+            ty_ = I.locals[es[0]["l"]]
+            if ty_.startswith("core::ops::control_flow::ControlFlow") or ty_.startswith("core::result::Result") or ty_.startswith("core::option::Option"):
+                continue        # `?` and error handling are not the create-or-check decision
+            sides = sorted(set(list(es[1].values()) + ([es[2]] if es[2] is not None else [])))
+        if sum(1 for x in sides if ba.path([x], rets, incl=True) is not None) < 2:
+            continue        # an assertion / `?` (one side only fails) is not a decision
+        for side in sides:
             if all(ba.edge_dominates((sw, side), c) for c in creates):
                 guards.append((sw, side))
     if not guards:
@@ -562,6 +572,9 @@ def interrupted_creation_is_recoverable(ctx, rid):
         if all(ba.dominates(o, g) for o, _ in guards):
             sw, side = g, sd
     d = op_local(I.blocks[sw]["term"]["discr"])
+    es_ = ba.enum_switch(sw)
+    if es_ and not ba.bool_switch(sw):
+        d = es_[0]["l"]         # the enum value whose discriminant is switched on
     queries = [i for i in ba.all_calls() if any(re.fullmatch(r"rusqlite::(Connection|Transaction|Statement)(<.*>)?::(query_row|query|query_map|exists|prepare|pragma_query_value|query_row_and_then)|rusqlite::Connection::query_row", p) for p in callee_paths(I.blocks[i]["term"]))
                and ba.path([i], [sw], incl=False) is not None and not ba.edge_dominates((sw, side), i)]
     tnt = taint(I, seeds={I.blocks[i]["term"]["dest"]["l"] for i in queries}, mode="derived") if queries else set()
@@ -1020,21 +1033,25 @@ def record_names_relative_to_target_dir(ctx, rid):
     prog = ctx.prog
     T = prog.one(r"state::target_relpath")
     ba = BA.of(T)
-    rp = ba.calls(r"state::relpath")
     tg = ba.calls(r"env::Env::target")
     par = ba.calls(r"std::path::Path::parent")
-    if not ctx.floor(rid, "relpath calls in target_relpath", len(rp), 1):
-        return
     ok = False
+    rets = ba.returns()
     if tg and par:
         tn = taint(T, seeds={T.blocks[i]["term"]["dest"]["l"] for i in tg}, mode="derived")
-        pn = taint(T, seeds={T.blocks[i]["term"]["dest"]["l"] for i in par if (op_local(T.blocks[i]["term"]["args"][0]) in tn or any(x in tn for x in ba.ref_chain(op_local(T.blocks[i]["term"]["args"][0]))))}, mode="derived")
-        for i in rp:
-            a = T.blocks[i]["term"]["args"]
-            if len(a) > 1 and op_local(a[1]) is not None and (op_local(a[1]) in pn or any(x in pn for x in ba.ref_chain(op_local(a[1])))):
-                ok = True
-    ctx.ob(rid, "%s|base=parent(dofile_dir.join(target))" % T.key, ok, where=ctx.where(T, rp[0]),
-           detail="the base of the relative name derives from parent(.. Env::target() ..)" if ok else
+        pseeds = {T.blocks[i]["term"]["dest"]["l"] for i in par
+                  if (op_local(T.blocks[i]["term"]["args"][0]) in tn or any(x in tn for x in ba.ref_chain(op_local(T.blocks[i]["term"]["args"][0]))))}
+        if pseeds:
+            pn = taint(T, seeds=pseeds, mode="derived")
+            # the name handed back (the Ok payload that reaches _0) is computed from that directory
+            ok = 0 in pn
+            if not ok:
+                for i in ba.calls(r"state::relpath"):
+                    a = T.blocks[i]["term"]["args"]
+                    if len(a) > 1 and op_local(a[1]) is not None and (op_local(a[1]) in pn or any(x in pn for x in ba.ref_chain(op_local(a[1])))):
+                        ok = True
+    ctx.ob(rid, "%s|base=parent(dofile_dir.join(target))" % T.key, ok, where=T.span,
+           detail="the relative name is computed from parent(.. Env::target() ..)" if ok else
            "record names are no longer relative to the current target's own directory: redo-log resolves them against that directory and looks up the wrong target (`not known to redo`, output lost)")
 
 
